@@ -23,7 +23,7 @@ func init() {
 	core.Register(&core.Engine{
 		Property: "C20",
 		Level:    "exploration",
-		Rule: "the real Logger with capacity N in {1, 2, 3, 16, 64}; entries carry unique ids, one of 3 owners and one of 3 types. Sequential phase: seeded sequences of Log and Filter (every owner/type " +
+		Rule: "the real Logger with capacity N in {1, 2, 3, 16, 64} (sequential phase also 5, 17, 20, 48, 100, 1000, 1024); entries carry unique ids, one of 3 owners and one of 3 types. Sequential phase: seeded sequences of Log and Filter (every owner/type " +
 			"combination incl. nil owner and type 0) of lengths below, at and >= 20 x N; each Filter result must be the matching subsequence of the reference-ring window (j-N, j] for some j that never " +
 			"decreases and never exceeds the number logged, and after logging stops Filter must converge to j = #logged within 10 000 polls (no clock). Concurrent phase: 1, 2 and 8 producers with " +
 			"concurrent filterers: membership, match, no duplicates, length <= N, per-producer order, real-time order of non-overlapping Log calls, no skipped entry of a producer between two returned ones; with " +
@@ -61,6 +61,11 @@ func ownerArg(fo int) interface{} {
 
 func c20Cases(tier string, seed int64) []core.Case {
 	var cases []core.Case
+	// (sequential only) capacities that are no power of two, and the default of a server's own log
+	for _, n := range []int{5, 17, 20, 48, 100, 1000, 1024} {
+		n := n
+		cases = append(cases, core.Case{ID: fmt.Sprintf("sequential/N=%d", n), Run: func(ctx *core.Ctx) core.Result { return c20Seq(ctx, n, false) }})
+	}
 	for _, n := range []int{1, 2, 3, 16, 64} {
 		n := n
 		cases = append(cases, core.Case{ID: fmt.Sprintf("sequential/N=%d", n), Run: func(ctx *core.Ctx) core.Result { return c20Seq(ctx, n, tier == "thorough") }})
